@@ -2,7 +2,7 @@
 
 use super::Mesh;
 use crate::{Point3, Result};
-use std::collections::{HashMap, HashSet};
+use std::collections::HashMap;
 
 pub struct MeshEdges<'a> {
     /// The original mesh associated with the edge structure
@@ -135,26 +135,32 @@ pub fn unique_edges(all_edges: &[[u32; 2]]) -> Vec<([u32; 2], usize)> {
     unique_count
 }
 
-fn boundary_loops(boundary_map: HashMap<u32, u32>) -> Vec<Vec<u32>> {
+fn boundary_loops(boundary_edges: &[[u32; 2]]) -> Vec<Vec<u32>> {
+    // Every vertex keeps the list of vertices its outgoing boundary edges lead to. Where faces
+    // touch at a single vertex there is more than one, so each step of a walk consumes the edge
+    // it follows, which also guarantees that the walks end.
+    let mut successors: HashMap<u32, Vec<u32>> = HashMap::new();
+    for edge in boundary_edges {
+        successors.entry(edge[0]).or_default().push(edge[1]);
+    }
+
+    let mut starts: Vec<u32> = successors.keys().copied().collect();
+    starts.sort_unstable();
+
     let mut all_loops = Vec::new();
-    let mut working = Vec::new();
-    let mut queue: HashSet<u32> = boundary_map.keys().copied().collect();
-
-    while !queue.is_empty() {
-        if let Some(last_id) = working.last() {
-            let next_id = boundary_map[last_id];
-            queue.remove(&next_id);
-
-            if *working.first().unwrap() == next_id {
-                working.reverse();
-                all_loops.push(working);
-                working = Vec::new();
-            } else {
+    for start_id in starts {
+        while let Some(first_id) = successors.get_mut(&start_id).and_then(|v| v.pop()) {
+            let mut working = vec![start_id];
+            let mut next_id = first_id;
+            while next_id != start_id {
                 working.push(next_id);
+                match successors.get_mut(&next_id).and_then(|v| v.pop()) {
+                    Some(id) => next_id = id,
+                    None => break,
+                }
             }
-        } else {
-            let start_id = *queue.iter().next().unwrap();
-            working.push(start_id);
+            working.reverse();
+            all_loops.push(working);
         }
     }
 
@@ -185,7 +191,7 @@ fn identify_edges(faces: &[[u32; 3]]) -> Result<(Vec<[u32; 2]>, Vec<[u32; 3]>, V
         .collect();
 
     // Let's remap the face edges to the unique edges and build the boundary map at the same time
-    let mut boundary_map = HashMap::new();
+    let mut boundary_edges = Vec::new();
     let mut face_edges = Vec::new();
     for face_chunk in direct_edges.chunks(3) {
         let i0 = to_unique_index[&edge_key(&face_chunk[0])];
@@ -194,17 +200,17 @@ fn identify_edges(faces: &[[u32; 3]]) -> Result<(Vec<[u32; 2]>, Vec<[u32; 3]>, V
         face_edges.push([i0 as u32, i1 as u32, i2 as u32]);
 
         if unique_edge_count[i0].1 == 1 {
-            boundary_map.insert(face_chunk[0][0], face_chunk[0][1]);
+            boundary_edges.push(face_chunk[0]);
         }
         if unique_edge_count[i1].1 == 1 {
-            boundary_map.insert(face_chunk[1][0], face_chunk[1][1]);
+            boundary_edges.push(face_chunk[1]);
         }
         if unique_edge_count[i2].1 == 1 {
-            boundary_map.insert(face_chunk[2][0], face_chunk[2][1]);
+            boundary_edges.push(face_chunk[2]);
         }
     }
 
-    let loops = boundary_loops(boundary_map);
+    let loops = boundary_loops(&boundary_edges);
     let edges = unique_edge_count.iter().map(|(edge, _)| *edge).collect();
 
     Ok((edges, face_edges, loops))
